@@ -939,7 +939,11 @@ impl Extensions {
             }
         }
 
-        if let Some(extension) = path
+        // The file is read from the percent-decoded path (see `get_response`), so the file
+        // extension must be taken from the decoded path too. Else, `/secret%2Eprivate` reads
+        // `secret.private` without running the extension bound to `private`.
+        let decoded_path = utils::percent_decode(request.uri().path());
+        if let Some(extension) = utils::parse::uri(&decoded_path)
             .map(Path::new)
             .and_then(Path::extension)
             .and_then(std::ffi::OsStr::to_str)
